@@ -36,4 +36,13 @@ CHECKS['C20'] = {
   'technique': 'guard-dominance cuts on the CFG, must-pass-through, sibling/delegation tables over type-class slots, macro witness',
 }
 
+CHECKS['C16'] = {
+  'text': 'Decides structural necessary conditions of the String value semantics: allocation-class refusal dominates every '
+          'realloc/free of the buffer; requested sizes cover the bytes then written (polynomial identity over strlen terms); '
+          'search results are NULL-tested before use; rem moves exactly the tail; len/cmp/hash/c_str/mem delegate to the C '
+          'library on the object\'s own buffer. Does not decide contents after arbitrary histories.',
+  'note': ASSUME,
+  'technique': 'guard dominance, symbolic extent comparison (polynomial normal form), accessor inlining, delegation table',
+}
+
 NOT_APPLICABLE = {}
